@@ -697,7 +697,7 @@ pub fn run_c26(args: &Args) {
         "C26",
         "modelcheck c26",
         args,
-        "for each generated model the valid request is mutated: unknown node ids (NodeId::from_u32 beyond the graph), operator ids used as inputs or outputs, duplicated input or output ids, a missing required input, an input with the wrong dtype, wrong rank or a wrong fixed dimension, alone and in pairs, through run and partial_run; every such request must return Err and must not panic. Valid variations (extra unused inputs) are run too so that the check does not demand errors where none is due. non-trivial = a mutated request (not the control); distinct by (case, mutation)",
+        "for each generated model the valid request is mutated: unknown node ids (NodeId::from_u32 beyond the graph), operator ids used as inputs or outputs, duplicated input or output ids (appended, and replacing another id so that the request has the same length as the valid request whose plan is in the cache), a missing required input, an input with the wrong dtype, wrong rank or a wrong fixed dimension, alone and in pairs, through run and partial_run; every such request must return Err and must not panic. Valid variations (extra unused inputs) are run too so that the check does not demand errors where none is due. non-trivial = a mutated request (not the control); distinct by (case, mutation)",
     );
     let cases = cases_from(args, "dag,cflow");
     let mut rng = Rng::derive(args.seed, 0xC26 + args.shard as u64);
@@ -734,6 +734,10 @@ pub fn run_c26(args: &Args) {
             OpAsOutput,
             DupInput,
             DupOutput,
+            /// Same number of ids as the valid request that primed the plan cache,
+            /// but one id replaced by a duplicate of another.
+            DupInputSameLen,
+            DupOutputSameLen,
             MissingInput(usize),
             WrongDtype(usize),
             WrongRank(usize),
@@ -746,6 +750,12 @@ pub fn run_c26(args: &Args) {
         }
         if !inputs.is_empty() {
             muts.push(Mut::DupInput);
+        }
+        if inputs.len() >= 2 {
+            muts.push(Mut::DupInputSameLen);
+        }
+        if out_ids.len() >= 2 {
+            muts.push(Mut::DupOutputSameLen);
         }
         // Which inputs are actually needed by the requested outputs? Determine by probing:
         // a request without input i that still succeeds means i was not required.
@@ -761,6 +771,9 @@ pub fn run_c26(args: &Args) {
         for m in &muts {
             for via_partial in [false, true] {
                 rep.eval();
+                // The valid request runs first, so that the plan cache holds its plan
+                // when the invalid one arrives (a cache hit must not bypass validation).
+                let _ = run_simple(&model, &inputs, &c.outputs, None);
                 let vals: Vec<Value> = inputs.iter().map(|t| t.to_value()).collect();
                 let mut ins: Vec<(NodeId, ValueOrView)> = in_ids.iter().zip(&vals).map(|(id, v)| (*id, ValueOrView::from(v))).collect();
                 let mut outs = out_ids.clone();
@@ -781,6 +794,13 @@ pub fn run_c26(args: &Args) {
                     Mut::DupOutput => {
                         let o = outs[0];
                         outs.push(o);
+                    }
+                    Mut::DupInputSameLen => {
+                        extra_holder.push(inputs[0].to_value());
+                    }
+                    Mut::DupOutputSameLen => {
+                        let n = outs.len();
+                        outs[n - 1] = outs[0];
                     }
                     Mut::MissingInput(i) => {
                         ins.remove(*i);
@@ -817,6 +837,10 @@ pub fn run_c26(args: &Args) {
                     Mut::UnknownInput => ins.push((unknown, ValueOrView::from(&extra_holder[0]))),
                     Mut::OpAsInput => ins.push((op_ids[0], ValueOrView::from(&extra_holder[0]))),
                     Mut::DupInput => ins.push((in_ids[0], ValueOrView::from(&extra_holder[0]))),
+                    Mut::DupInputSameLen => {
+                        let n = ins.len();
+                        ins[n - 1] = (in_ids[0], ValueOrView::from(&extra_holder[0]));
+                    }
                     Mut::WrongDtype(i) | Mut::WrongRank(i) | Mut::WrongFixedDim(i) => ins[*i] = (in_ids[*i], ValueOrView::from(&extra_holder[0])),
                     _ => {}
                 }
@@ -898,7 +922,7 @@ pub fn run_c24(args: &Args) {
                 rep.count("load_error");
                 continue;
             };
-            let tol = if cfg.optimize { Tol::for_class("model") } else { Tol::Bits };
+            let tol = if cfg.optimize { Tol::for_class("model") } else { Tol::Exact };
             for k in 0..c.input_sets.len() {
                 let inputs = c.input_set(k);
                 let Ok(want) = run_simple(&alt, &inputs, &alt_outputs, None) else {
